@@ -286,11 +286,46 @@ fn malformed_block(g: &mut Gen, kind: &str) -> (BlockSpec, &'static str) {
             "affects"
         }
         "severity-unknown" => {
-            b.lines = vec!["alpha".into(), "alpha".into()];
-            b.attrs.push(("keep-unique".into(), "".into()));
+            // the severity is only looked at when the block reports something: give it one
+            // violation, from any validator
+            let carrier = match g.rng.below(6) {
+                0 => {
+                    b.lines = vec!["alpha".into(), "alpha".into()];
+                    b.attrs.push(("keep-unique".into(), "".into()));
+                    "keep-unique"
+                }
+                1 => {
+                    b.lines = vec!["beta".into(), "alpha".into()];
+                    b.attrs.push(("keep-sorted".into(), "asc".into()));
+                    "keep-sorted"
+                }
+                2 => {
+                    b.lines = vec!["alpha".into()];
+                    b.attrs.push(("line-count".into(), ">= 3".into()));
+                    "line-count"
+                }
+                3 => {
+                    b.lines = vec!["alpha".into(), "beta=1".into()];
+                    b.attrs.push(("line-pattern".into(), "^[a-z]+$".into()));
+                    "line-pattern"
+                }
+                4 => {
+                    b.lines = vec!["alpha".into()];
+                    g.add_lua(&mut b, ScriptKind::Good, false);
+                    b.set_attr("x-ret", "str");
+                    "check-lua"
+                }
+                _ => {
+                    b.lines = vec!["alpha".into()];
+                    g.add_ai(&mut b, true);
+                    let tok = model::find_ai_token(b.attr("check-ai").unwrap()).unwrap();
+                    g.world.ai.insert(tok, AiReply::Text("needs a banana".into()));
+                    "check-ai"
+                }
+            };
             let v = *g.rng.pick(&["fatal", "warn", "errors", "", "critical", "1", "error "]);
             b.attrs.push(("severity".into(), v.into()));
-            "keep-unique"
+            carrier
         }
         "lua-empty-path" => {
             words(&mut b);
@@ -323,6 +358,24 @@ fn malformed_block(g: &mut Gen, kind: &str) -> (BlockSpec, &'static str) {
         }
         other => panic!("unknown malformation {other}"),
     };
+    // a malformed rule must also fail closed when the block carries other, healthy rules
+    // (two rules on one block is what the lazy validator detection has to get right)
+    if kind != "severity-unknown" && g.rng.chance(1, 3) {
+        let extra = match g.rng.below(4) {
+            0 if !b.has("line-count") => Some(("line-count", format!("== {}", b.lines.iter().filter(|l| !l.trim().is_empty()).count()))),
+            1 if !b.has("keep-unique") && kind != "numeric-nonnumeric" => Some(("keep-unique", String::new())),
+            2 if !b.has("keep-sorted") && kind != "numeric-nonnumeric" => Some(("keep-sorted", "asc".to_string())),
+            3 if !b.has("line-pattern") && kind != "numeric-nonnumeric" && !b.lines.is_empty() => Some(("line-pattern", "^[a-z0-9=]+$".to_string())),
+            _ => None,
+        };
+        if let Some((k, v)) = extra {
+            if g.rng.chance(1, 2) {
+                b.attrs.insert(1.min(b.attrs.len()), (k.to_string(), v));
+            } else {
+                b.attrs.push((k.to_string(), v));
+            }
+        }
+    }
     (b, carrier)
 }
 
@@ -409,7 +462,7 @@ fn c13(seed: u64, thorough: bool) -> Scenario {
     if variant < 70 {
         want_failed = true;
         tags.push("variant=malformed".into());
-    } else if variant < 85 && kind != "severity-unknown" {
+    } else if variant < 85 {
         // control: the carrier validator is disabled
         if g.rng.chance(1, 2) {
             g.world.args.disable = vec![carrier.to_string()];
@@ -610,11 +663,37 @@ fn c14(seed: u64, thorough: bool) -> Scenario {
         g.world.args.enable = vec![g.rng.pick(model::VALIDATORS).to_string()];
         tags.push("flags=both".into());
     } else if shape < 95 {
-        let bogus = *g.rng.pick(&["keep_sorted", "sorted", "check-lua ", "KEEP-SORTED", "all", ""]);
-        if g.rng.chance(1, 2) {
-            g.world.args.disable = vec![bogus.to_string()];
+        // unknown names: fixed look-alikes, or a real name damaged in one place
+        let bogus: String = if g.rng.chance(1, 3) {
+            g.rng.pick(&["keep_sorted", "sorted", "all", "", "check", "lua", "*", "keep-sorted,keep-unique"]).to_string()
         } else {
-            g.world.args.enable = vec![bogus.to_string()];
+            let real = *g.rng.pick(model::VALIDATORS);
+            match g.rng.below(7) {
+                0 => real.to_uppercase(),
+                1 => {
+                    let mut c: Vec<char> = real.chars().collect();
+                    let i = g.rng.below(c.len());
+                    c[i] = c[i].to_ascii_uppercase();
+                    let t: String = c.into_iter().collect();
+                    if t == real { format!("{real}X") } else { t }
+                }
+                2 => format!("{real} "),
+                3 => format!(" {real}"),
+                4 => real.replace('-', "_"),
+                5 => real[..real.len() - 1].to_string(),
+                _ => format!("{real}s"),
+            }
+        };
+        if g.rng.chance(1, 2) {
+            g.world.args.disable = vec![bogus.clone()];
+            if g.rng.chance(1, 3) {
+                g.world.args.disable.push(g.rng.pick(model::VALIDATORS).to_string());
+            }
+        } else {
+            g.world.args.enable = vec![bogus.clone()];
+            if g.rng.chance(1, 3) {
+                g.world.args.enable.insert(0, g.rng.pick(model::VALIDATORS).to_string());
+            }
         }
         tags.push("flags=unknown".into());
     } else {
@@ -698,6 +777,16 @@ fn c15(seed: u64, thorough: bool) -> Scenario {
             f.unwalkable = true;
             if !g.world.gitignore.iter().any(|l| l == "gen_*") {
                 g.world.gitignore.push("gen_*".into());
+            }
+        } else if g.rng.chance(1, 12) {
+            // a whole git-ignored directory
+            let f = &mut g.world.files[i];
+            let name = f.path.rsplit('/').next().unwrap().to_string();
+            let dir = f.path.strip_suffix(&name).unwrap().to_string();
+            f.path = format!("{dir}out/{name}");
+            f.unwalkable = true;
+            if !g.world.gitignore.iter().any(|l| l == "out/") {
+                g.world.gitignore.push("out/".into());
             }
         }
     }
@@ -1294,6 +1383,9 @@ pub fn stats(sc: &Scenario, reports: &[ChildReport]) -> ScenarioStats {
             let inscope = j0.scope.len();
             let poisoned = j0.poisoned.len();
             st.nontrivial = poisoned >= 1 && inscope >= 1;
+            // the poison is *placed* on every out-of-scope path; on a correct tree it is never
+            // *read* (fs:poisoned_read stays 0 and would accompany a violation)
+            *st.faults_fired.entry("fs:poison_placed_on_out_of_scope_path".into()).or_default() += poisoned as u64;
             for f in &w0.files {
                 if f.path.starts_with("b/") {
                     bump(&mut st.probes, "top_level_dir_named_b");
